@@ -38,6 +38,20 @@ pub fn digit_len<const B: Word>(value: &IBig) -> (r: usize)
     requires B >= 2
     ensures r == ndigits(B as int, value.v())
 { unimplemented!() }
+// `Repr::digits_ub` (the fast f32 over-estimate of the digit count; float/src/repr.rs): NOT used by the unchanged
+// functions under contract; present so that a changed function calling it is judged by its contract. Assumed: an upper
+// bound of the digit count; 0 for a zero significand (explicit early return in the real code); and the generous cap
+// 2*digits + 2 (real code: `log as usize + 1` with log = f32 upper bound of log_B|significand|, relative error of a few
+// 2^-22) which float/src/add.rs needs only to exclude usize overflow.  All three are ASSUMED (f32 estimate, not proved).
+impl<const BASE: Word> Repr<BASE> {
+    #[verifier::external_body]
+    pub fn digits_ub(&self) -> (r: usize)
+        ensures r >= ndigits(BASE as int, self.significand.v()),
+            r <= 2 * ndigits(BASE as int, self.significand.v()) + 2,
+            self.significand.v() == 0 ==> r == 0,
+    { unimplemented!() }
+}
+
 /// utils::split_digits: v == hi*B^pos + lo, |lo| < B^pos, "the sign is applied to both parts"
 #[verifier::external_body]
 pub fn split_digits<const B: Word>(value: IBig, pos: usize) -> (r: (IBig, IBig))
